@@ -51,11 +51,11 @@ func defaults(s *CertSpec) {
 func template(s CertSpec) *x509.Certificate {
 	defaults(&s)
 	t := &x509.Certificate{
-		SerialNumber: big.NewInt(atomic.AddInt64(&serial, 1)),
-		Subject:      pkix.Name{CommonName: s.CN, Organization: s.Orgs},
-		NotBefore:    s.NotBefore,
-		NotAfter:     s.NotAfter,
-		DNSNames:     s.DNS,
+		SerialNumber:   big.NewInt(atomic.AddInt64(&serial, 1)),
+		Subject:        pkix.Name{CommonName: s.CN, Organization: s.Orgs},
+		NotBefore:      s.NotBefore,
+		NotAfter:       s.NotAfter,
+		DNSNames:       s.DNS,
 		EmailAddresses: s.Emails,
 	}
 	for _, u := range s.URIs {
